@@ -48,9 +48,16 @@ def controlling_switches(b, site_bb):
         if site_bb not in b.reachable(i):
             continue
         succs = b.succ(i)
-        r = [site_bb in b.reachable(s) for s in succs]
+        # within one iteration: do not travel through the switch again
+        r = [site_bb in b.reachable(s, avoid=[i]) for s in succs]
         if any(r) and not all(r):
-            out.append((i, t, [s for s, x in zip(succs, r) if x], [s for s, x in zip(succs, r) if not x]))
+            no = [s for s, x in zip(succs, r) if not x]
+            # a loop-continuation edge (the other side comes back to this very switch) decides nothing about reaching the site
+            rets = set(b.return_blocks())
+            live_no = [s for s in no if (b.reachable(s) & rets) or i in b.reachable(s)]
+            if live_no and all(i in b.reachable(s) and not (b.reachable(s, avoid=[i]) & rets) for s in live_no):
+                continue
+            out.append((i, t, [s for s, x in zip(succs, r) if x], no))
     return out
 
 
